@@ -33,6 +33,7 @@ func c02(c *Ctx) (*report.Result, error) {
 	}
 	if f := resolve(c, res, "O2.4", anchor{"proxy", "*proxyStreamReceiver", "recvReplicationMessages"}); f != nil {
 		checkHandOffLoop(c, res, f)
+		checkRetryLoopBookkeeping(c, res, "O2.4", f, 1)
 		res.RuleDoc["O2.5"] = "a message handed to a target stream is a fresh object: nothing reachable from it is written after the hand-over (the sender goroutine rewrites ids in it later)"
 		checkNoWriteAfterHandover(c, res, "O2.5", f, "routed message")
 		checkFreshPerHandover(c, res, "O2.5", f)
